@@ -174,7 +174,7 @@ def _simulate_one(args):
         shutil.rmtree(d, ignore_errors=True)
 
 
-def simulate(cfg_name, num, depth, seed, module="MC_Eco", timeout=900, procs=None):
+def simulate(cfg_name, num, depth, seed, module="MC_Eco", timeout=2400, procs=None):
     """TLC -simulate on the configuration's GenNext, split over several TLC
     processes with distinct seeds; returns the behaviours as lists of parsed states."""
     import concurrent.futures
@@ -243,7 +243,7 @@ def run_harness(binary, behaviours_path, trace_path, timeout=1800):
 
 
 # ---------------------------------------------------------------- trace validation
-def validate(trace_path, invariants, properties, module="TraceEco", timeout=1800, keep=False):
+def validate(trace_path, invariants, properties, module="TraceEco", timeout=3600, keep=False):
     """Run the trace specification on trace_path with the given layer-A
     formulas.  Returns dict: accepted, violated (name or None), line, divergences."""
     d = scratch("tv")
@@ -294,7 +294,7 @@ def validate(trace_path, invariants, properties, module="TraceEco", timeout=1800
 
 
 # ---------------------------------------------------------------- edge cover
-def dump_states(cfg_name, module="MC_Eco", timeout=900):
+def dump_states(cfg_name, module="MC_Eco", timeout=2400):
     """Exhaustive TLC run with -dump: returns the distinct states (dicts)."""
     d = scratch("dump")
     try:
